@@ -386,6 +386,9 @@ def run_check(prop, spec, tier, seed, scale, write_evidence=True):
         if os.path.exists(errf):
             et = open(errf, errors="replace").read()
             ttag = vlib.crash_tag(et) if "ThreadSanitizer" in et else None
+            if ttag and ttag.startswith("tsanh."):
+                lines.append("NOTE: %s: ThreadSanitizer report between two accesses of the harness itself (not a library access; not reported)" % origin)
+                return
             if ttag and ttag.startswith("tsan."):
                 if ("crash", ttag) in seen_tags:
                     return
